@@ -143,7 +143,7 @@ Proof.
   assert (Hval : (match val with Some e => check_value p (VStr s) (VStr e) | None => [] end) = [] <->
                  opt_holds val (fun e => s = e)).
   { destruct val as [e|]; simpl; [|split; auto]. rewrite check_value_nil. simpl. apply str_eqb_eq. }
-  assert (Hp : (match pat with Some pt => if pat_search pt s then [] else [VE (ERegex (fst pt)) p (VStr s)] | None => [] end) = [] <->
+  assert (Hp : (match pat with Some pt => if pat_search pt s then [] else [VE (ERegex pt) p (VStr s)] | None => [] end) = [] <->
                opt_holds pat (fun pt => searchb (snd pt) s = Some true)).
   { destruct pat as [pt|]; simpl; [|split; auto].
     simpl in Hpat. destruct pt as [src tree]. simpl in *.
@@ -151,7 +151,7 @@ Proof.
     destruct (pat_search (src, tree) s); split; auto; discriminate. }
   destruct (match val with Some e => check_value p (VStr s) (VStr e) | None => [] end) eqn:Ev.
   2:{ cbv iota. split; [discriminate|]. intros (s0 & E & Hv & _). inversion E; subst s0. apply Hval in Hv. discriminate. }
-  destruct (match pat with Some pt => if pat_search pt s then [] else [VE (ERegex (fst pt)) p (VStr s)] | None => [] end) eqn:Epp.
+  destruct (match pat with Some pt => if pat_search pt s then [] else [VE (ERegex pt) p (VStr s)] | None => [] end) eqn:Epp.
   2:{ cbv iota. split; [discriminate|]. intros (s0 & E & _ & Hpp & _). inversion E; subst s0. apply Hp in Hpp. discriminate. }
   cbv iota.
   rewrite !app_nil_iff, check_len_nil.
